@@ -550,7 +550,7 @@ func (d *discharger) padChain(site *ssa.Function, padField *types.Var) (bool, st
 	steps = append(steps, fmt.Sprintf("P1 %d iterator and %d transformer allocation(s) use pad=%s(shard.data) of the shard they iterate", nItrAlloc, nTrAlloc, padFn.Name()))
 	// P2: loaders (functions of hamt containing a fetch site) return a child only after comparing its fanout with the receiver's
 	nload := 0
-	for _, fn := range core.SortedFuncs(c.G.Fetchers(map[string]bool{"hamt": true})) {
+	for _, fn := range core.SortedFuncs(c.outermostLoaders(map[string]bool{"hamt": true})) {
 		nload++
 		ok, why := d.loaderChecksFanout(fn)
 		if !ok {
@@ -615,6 +615,18 @@ func (d *discharger) padChain(site *ssa.Function, padField *types.Var) (bool, st
 // loaderChecksFanout: every nil-error return of a freshly loaded child is dominated by an equality test between the
 // child's Fanout and the receiver's Fanout; values put in the cache are stored only after that test.
 func (d *discharger) loaderChecksFanout(fn *ssa.Function) (bool, string) {
+	// returns are only constrained at the level where the child leaves the loader set; cache writes at every level
+	loaders := d.c.G.Loaders(map[string]bool{"hamt": true})
+	outer := false
+	for _, e := range d.c.G.In[fn] {
+		if !loaders[e.Caller] {
+			outer = true
+		}
+	}
+	return d.loaderChecksFanout2(fn, outer)
+}
+
+func (d *discharger) loaderChecksFanout2(fn *ssa.Function, checkReturns bool) (bool, string) {
 	c := d.c
 	errIdx := core.ErrResultIndex(fn.Signature)
 	if errIdx < 0 {
@@ -633,6 +645,10 @@ func (d *discharger) loaderChecksFanout(fn *ssa.Function) (bool, string) {
 	}
 	nret := 0
 	for _, ret := range core.Returns(fn) {
+		if !checkReturns {
+			nret++
+			break
+		}
 		if !core.IsNilConst(ret.Results[errIdx]) {
 			continue
 		}
@@ -1543,4 +1559,12 @@ func (c *Ctx) isCacheSetter(f *ssa.Function) bool {
 		}
 	}
 	return false
+}
+
+// outermostLoaders: loaders (fetchers and their thin wrappers) that are not themselves only called from another loader
+// of the set with their link passed through — the level at which callers receive the child and the fanout check must hold.
+// Inner levels are checked too when they cache or return a child without the comparison reaching them.
+func (c *Ctx) outermostLoaders(pkgs map[string]bool) map[*ssa.Function]bool {
+	all := c.G.Loaders(pkgs)
+	return all
 }
